@@ -61,6 +61,15 @@ for name, app in sorted(APPS.items()):
         shutil.copy(norm(opts["dcdfilepath"]), os.path.join(out, "dcd.bin"))
     if 21 in secs:
         shutil.copy(norm(secs[21]["installsrk_table"]), os.path.join(out, "srk_table.bin"))
+        # fuse value frozen at the pinned commit (SPSDK's report == SHA-256 over the SHA-256 of every entry, checked here)
+        import hashlib
+
+        from spsdk.image.secret import SrkTable
+
+        tbl = SrkTable.parse(open(norm(secs[21]["installsrk_table"]), "rb").read())
+        fuse = tbl.export_fuses()
+        assert fuse == hashlib.sha256(b"".join(hashlib.sha256(k.export()).digest() for k in tbl)).digest()
+        meta["fuse_hex"] = fuse.hex()
     if 22 in secs:
         open(os.path.join(out, "csfk.der"), "wb").write(der(norm(secs[22]["installcsfk_file"])))
     if 23 in secs:
